@@ -396,6 +396,9 @@ class SuitTupleNamed(SuitObject):
                     raise ValueError(f"Incomplete list. Missing: {key}")
                 value.append(method.from_cbor(cls.ensure_cbor(value_list[index])))
                 index += 1
+        if index < len(value_list) and any(k.endswith("*") for k in list(cls._metadata.map)[-1:]):
+            # the trailing dynamic element stopped on an item it cannot parse: do not silently drop it and the rest
+            raise ValueError(f"{cls.__name__}: unable to parse element at index {index}")
         return cls(value)
 
     def to_cbor(self) -> bytes:
